@@ -202,8 +202,10 @@ func (l *lexer) next() rune {
 
 // peek returns but does not consume the next rune in the input.
 func (l *lexer) peek() rune {
+	width := l.width
 	r := l.next()
 	l.backup()
+	l.width = width // keep describing the last consumed rune, so backup() stays valid after peek()
 	return r
 }
 
